@@ -68,6 +68,15 @@ impl<E: FieldElement, H: ElementHasher<BaseField = E::BaseField>> VerifierChanne
         if E::BaseField::get_modulus_le_bytes() != context.field_modulus_bytes() {
             return Err(VerifierError::InconsistentBaseField);
         }
+
+        // a GKR proof must be present exactly when the trace has a Lagrange kernel column; a GKR
+        // proof attached to any other proof would never be looked at (and so would not be bound to
+        // anything the verifier checks), and a missing one cannot be verified
+        if gkr_proof.is_some() != air.context().has_lagrange_kernel_aux_column() {
+            return Err(VerifierError::ProofDeserializationError(
+                "presence of a GKR proof is inconsistent with the trace layout".to_string(),
+            ));
+        }
         let constraint_frame_width = air.context().num_constraint_composition_columns();
 
         let num_trace_segments = air.trace_info().num_segments();
